@@ -1154,6 +1154,52 @@ func (f *Frugal) validateTypedefs() error {
 				typedef.Name, typedef.Type.Name)
 		}
 	}
+
+	// Reject typedefs which (directly, through other typedefs or through
+	// container element types) refer to themselves: resolving them would
+	// recurse forever.
+	const (
+		visiting = 1
+		done     = 2
+	)
+	state := make(map[string]int)
+	var visitType func(t *Type) error
+	var visitTypedef func(typedef *TypeDef) error
+	visitTypedef = func(typedef *TypeDef) error {
+		switch state[typedef.Name] {
+		case done:
+			return nil
+		case visiting:
+			return fmt.Errorf("Invalid alias %s, typedef refers to itself", typedef.Name)
+		}
+		state[typedef.Name] = visiting
+		if err := visitType(typedef.Type); err != nil {
+			return err
+		}
+		state[typedef.Name] = done
+		return nil
+	}
+	visitType = func(t *Type) error {
+		if t == nil {
+			return nil
+		}
+		if t.IncludeName() == "" {
+			if typedef, ok := f.typedefIndex[t.Name]; ok {
+				if err := visitTypedef(typedef); err != nil {
+					return err
+				}
+			}
+		}
+		if err := visitType(t.KeyType); err != nil {
+			return err
+		}
+		return visitType(t.ValueType)
+	}
+	for _, typedef := range f.Typedefs {
+		if err := visitTypedef(typedef); err != nil {
+			return err
+		}
+	}
 	return nil
 }
 
